@@ -186,7 +186,7 @@ def generate(rng: random.Random, tier: str) -> dict:
         steps.append(["gc"])
         steps.append(["flood", rng.choice([20, 70, 140, 140, 270, 530, 1100]), 0, xy])
         steps.append(["gc"])
-        steps.append(["churn", rng.sample(CHURN_CODES, rng.choice([2, 4, 8])), 0, xy])
+        steps.append(["churn", rng.sample(CHURN_CODES, rng.choice([2, 3])), 0, xy])
         nsteps = len(steps) + rng.randint(0, 4)
     while len(steps) < nsteps and n_pool < 16:
         r = rng.random()
@@ -208,7 +208,7 @@ def generate(rng: random.Random, tier: str) -> dict:
                 crs_slots.remove(s)
             steps.append(["gc"])
             if other in crs_slots:
-                steps.append(["churn", rng.sample(CHURN_CODES, rng.choice([4, 8, 12])), other, rng.random() < 0.6])
+                steps.append(["churn", rng.sample(CHURN_CODES, rng.choice([2, 3, 4])), other, rng.random() < 0.6])
             continue
         if r < (0.45 if style == "crs-heavy" else 0.25):
             add_crs(_draw_crs_spec(rng))
@@ -234,7 +234,7 @@ def generate(rng: random.Random, tier: str) -> dict:
         elif r < 0.90:
             steps.append(["gc"])
         elif r < 0.94 and crs_slots:
-            steps.append(["churn", rng.sample(CHURN_CODES, rng.choice([2, 4, 8])), rng.choice(crs_slots), rng.random() < 0.6])
+            steps.append(["churn", rng.sample(CHURN_CODES, rng.choice([1, 2, 3])), rng.choice(crs_slots), rng.random() < 0.6])
         elif crs_slots is not None:
             T = rng.choice([2, 2, 3])
             if rng.random() < 0.6:
@@ -755,8 +755,8 @@ class History:
                 raise HarnessError(f"unknown step {op}")
 
     def flood(self, n: int, other: Optional[Dict[str, Any]], xy: bool) -> None:
-        """Construct n never-seen CRSs (nothing keeps them but the library's own cache); every
-        16th asks for its transformer towards ``other`` and is checked against pyproj."""
+        """Construct n never-seen CRSs (nothing keeps them but the library's own cache); the
+        16th and the last ask for their transformer towards ``other`` (checked against pyproj)."""
         import numpy as np
         import pyproj
         from odc.geo.crs import CRS
@@ -766,8 +766,8 @@ class History:
             lon0 = 20 + self.n_flood * 0.01
             spec = f"+proj=tmerc +lat_0=0 +lon_0={lon0:.2f} +k=0.9996 +x_0=500000 +y_0=0 +datum=WGS84 +units=m +no_defs +type=crs"
             c = CRS(spec)
-            if i % 16 != 15 or other is None or other["kind"] != "crs" or other.get("code") not in REF["probe_xy"]:
-                continue
+            if i not in (15, n - 1) or other is None or other["kind"] != "crs" or other.get("code") not in REF["probe_xy"]:
+                continue  # two probes per flood: creating a transformer costs PROJ an operation search
             x, y = 500000.0, 1200000.0
             got = c.transformer_to_crs(other["value"], always_xy=xy)(x, y)
             opp = REF["specs"][other["code"]]["pp"]
